@@ -45,7 +45,7 @@ theorem C18_last_error_isolated_run (pol : Policy) (prog : Prog) (cs : List (Cal
   induction cs generalizing e with
   | nil => simp [run] at h; subst h; rfl
   | cons c rest ih =>
-    simp only [run, bind, Lemmas.CApi.Res.bind_ok] at h
+    simp only [run, Lemmas.CApi.Res.bind_ok] at h
     obtain ⟨e1, h1, h2⟩ := h
     have hc : t ≠ c.tid := fun heq => hcs c (by simp) heq.symm
     rw [ih e1 (fun c' hc' => hcs c' (by simp [hc'])) h2]
